@@ -59,6 +59,12 @@ theorem closeTo_sound (eps : Rat) (res : Res) (exact : Bool) (shift : Int) (src 
 example : closeTo 0 .ms false 1 ⟨[(1000, 0), (1500, 3)], [(2000, 2, 500)], [(0, 120)]⟩
     ⟨[(1500, 4), ((10004 : Rat) / 10, 1)], [(2000, 3, (5004 : Rat) / 10)], [(0, 120), (4000, 120)]⟩ = true := by decide +kernel
 
+/-- ties: of two tempo points at one time the LATER row is in force — the source's timeline `120, then (100, 150) at
+2000 ms` is the target's `120, then 150 at 2000 ms`, and not `120, then 100` -/
+example : closeTo 0 .ms false 0 ⟨[(2400, 0)], [], [(0, 120), (2000, 100), (2000, 150)]⟩ ⟨[(2400, 0)], [], [(0, 120), (2000, 150)]⟩ = true ∧
+    closeTo 0 .ms false 0 ⟨[(2400, 0)], [], [(0, 120), (2000, 100), (2000, 150)]⟩ ⟨[(2400, 0)], [], [(0, 120), (2000, 100)]⟩ = false ∧
+    bpmAt [(0, 120), (2000, 100), (2000, 150)] 2400 = some 150 := by decide +kernel
+
 /-! ## key-count lookups (generated tables) -/
 
 def smTypeOf (k : Nat) : List Char := (Generated.SM.typeOfKeys.lookup k).getD []
